@@ -49,6 +49,8 @@ var corpusPatterns = func() []string {
 		var s string
 		if json.Unmarshal([]byte(l), &s) == nil {
 			out = append(out, s)
+		} else if l[0] != '"' {
+			out = append(out, l) // a line that is not a JSON string is the pattern itself
 		}
 	}
 	return out
@@ -365,6 +367,65 @@ func sampleMatch(r *RNG, re *syntax.Regexp, out []byte, budget *int) []byte {
 	return out
 }
 
+// sampleStretched emits a string in the language of re in which ONE unbounded repetition (the first one the walk meets) is
+// iterated `reps` times: matches longer than any internal window (4096-byte prefix checks, 100-byte estimates, 64-byte vector
+// blocks, visited-table limits for small inputs).  *done reports whether a loop was stretched.
+func sampleStretched(r *RNG, re *syntax.Regexp, out []byte, reps int, done *bool) []byte {
+	switch re.Op {
+	case syntax.OpCapture, syntax.OpConcat:
+		for _, s := range re.Sub {
+			out = sampleStretched(r, s, out, reps, done)
+		}
+		return out
+	case syntax.OpAlternate:
+		return sampleStretched(r, re.Sub[r.Intn(len(re.Sub))], out, reps, done)
+	case syntax.OpStar, syntax.OpPlus:
+		if !*done {
+			*done = true
+			for n := 0; n < reps && len(out) < 3*reps; n++ {
+				b := 6
+				out = sampleMatch(r, re.Sub[0], out, &b)
+			}
+			return out
+		}
+	case syntax.OpRepeat:
+		if !*done && re.Max < 0 {
+			*done = true
+			for n := 0; n < reps+re.Min && len(out) < 3*reps; n++ {
+				b := 6
+				out = sampleMatch(r, re.Sub[0], out, &b)
+			}
+			return out
+		}
+	}
+	b := 40
+	return sampleMatch(r, re, out, &b)
+}
+
+// thresholdProbes: shapes whose matches extend with the input (start-anchored with a dot loop, class loops before a literal) — run
+// first by the enumeration / relation checks on haystacks stretched across the internal size thresholds (4096-byte ASCII prefix
+// check, window and estimate sizes).
+var thresholdProbes = []string{`^a.*b`, `^.+b`, `^(\w+) .*b`, `^[a-z]+.*x`, `^a.*`, `^.*?b`, `(?s)^a.*b`, `^a[^\n]*b`, `a.*b`, `[a-z]+.*x`, `^(?:a|b).*c`, `^x.{2,}y`}
+
+// GenStretched returns a haystack with one loop of the pattern iterated a few thousand times (ASCII), then possibly a multi-byte
+// rune and a second sampled match; nil if the pattern has no unbounded loop.
+func GenStretched(r *RNG, re *syntax.Regexp) []byte {
+	done := false
+	var h []byte
+	if r.Chance(30) {
+		h = append(h, "0 "...)
+	}
+	h = sampleStretched(r, re, h, 4090+r.Intn(40), &done)
+	if !done {
+		return nil
+	}
+	if r.Chance(70) {
+		h = append(h, "é"...)
+	}
+	b := 40
+	return sampleMatch(r, re, h, &b)
+}
+
 func flipCase(c rune) rune {
 	switch {
 	case c >= 'a' && c <= 'z':
@@ -380,6 +441,31 @@ func GenHaystack(r *RNG, re *syntax.Regexp, asciiOnly bool) []byte {
 	var h []byte
 	mode := r.Intn(100)
 	switch {
+	case mode < 3:
+		// a LONG match: one loop of the pattern iterated ~4200-5200 times, ASCII first, then possibly a multi-byte rune and
+		// a second (short) sampled match
+		done := false
+		if r.Chance(40) {
+			h = append(h, ctxBytes[r.Intn(len(ctxBytes))]...)
+		}
+		h = sampleStretched(r, re, h, 4200+r.Intn(1000), &done)
+		if done {
+			if r.Chance(60) && !asciiOnly {
+				h = append(h, "é"...)
+			}
+			b := 40
+			h = sampleMatch(r, re, h, &b)
+			if asciiOnly {
+				for i, b := range h {
+					if b >= 0x80 {
+						h[i] = 'a' + b%26
+					}
+				}
+			}
+			return h
+		}
+		h = h[:0]
+		fallthrough
 	case mode < 5:
 		return nil
 	case mode < 70:
